@@ -220,4 +220,46 @@ example : ∃ st : St, Setting st ∧ ((100 : Nat) ≠ 0 → RW st 100 1) :=
   ⟨{ data := fun _ => 65, mapped := fun _ => true, rd := fun _ => true, wr := fun a => decide (a = 100) },
    ⟨fun _ => ⟨rfl, rfl⟩, rfl⟩, fun _ i hi => ⟨rfl, by simp; omega, rfl⟩⟩
 
+/-! ## gmtime_s / localtime_s -/
+
+theorem SW_copyTm {lo hi : Nat} (k i res dest : Nat) (h : lo ≤ dest ∧ dest + (i + k) ≤ hi) :
+    SW lo hi (copyTm k i res dest) (fun _ => True) := by
+  induction k generalizing i with
+  | zero => unfold copyTm; exact SW.pure _ trivial
+  | succ k ih =>
+    unfold copyTm
+    refine SW.bind (SW.loadP _) (fun v _ => ?_)
+    refine SW.bind (Q := fun _ => True) ?_ (fun _ _ => ih (i+1) (by omega))
+    split
+    · exact SW.pure _ trivial
+    · exact SW.storeP _ _ (by omega) (by omega)
+
+theorem SW_tmConv {lo hi : Nat} (timer dest res : Nat) (h : dest = 0 ∨ (lo ≤ dest ∧ dest + 14 ≤ hi)) :
+    SW lo hi (tmConv timer dest res) (fun _ => True) := by
+  unfold tmConv
+  split
+  · exact SW.failS _
+  have hd : dest ≠ 0 := by assumption
+  have hh : lo ≤ dest ∧ dest + 14 ≤ hi := by rcases h with h | h; exact absurd h hd; exact h
+  split
+  · exact SW.failS _
+  refine SW.bind (SW.loadP _) (fun t _ => ?_)
+  split
+  · exact SW.bind (SW.handlerS _) (fun _ _ => SW.pure _ trivial)
+  refine SW.bind (SW.loadP _) (fun t2 _ => ?_)
+  split
+  · exact SW.bind (SW.handlerS _) (fun _ _ => SW.pure _ trivial)
+  split
+  · exact SW.pure _ trivial
+  · exact SW.bind (SW_copyTm 14 0 res dest (by omega)) (fun _ _ => SW.pure _ trivial)
+
+/-- **gmtime_s / localtime_s**: all arguments, any `*timer`, any result libc hands back: only the 14 cells of `*dest` are stored to -/
+theorem gmtime_s_C01 (timer dest res : Nat) (st : St) (hs : Setting st) (hrw : dest ≠ 0 → RW st dest 14) :
+    ∃ r st', exec (gmtime_s timer dest res) st = .ok (r, st') ∧ Holds st st' :=
+  holds_of_SW dest 14 st hs hrw (fun _ _ h => SW_tmConv timer dest res h)
+
+theorem localtime_s_C01 (timer dest res : Nat) (st : St) (hs : Setting st) (hrw : dest ≠ 0 → RW st dest 14) :
+    ∃ r st', exec (localtime_s timer dest res) st = .ok (r, st') ∧ Holds st st' :=
+  holds_of_SW dest 14 st hs hrw (fun _ _ h => SW_tmConv timer dest res h)
+
 end SafeC.Props.C01
